@@ -257,6 +257,14 @@ Theorem C07_spec_ok_hash_reads : forall c o, spec_ok c o = true ->
 Proof. exact spec_ok_hash_reads. Qed.
 Print Assumptions C07_spec_ok_hash_reads.
 
+(* the five conformance flags of the laws suite - sorted() of the mixed list under shuffling; sorted() of the literals of
+   each datatype over permutations; set/dict collapse exactly the equal terms; > <= >= agree with < and == on non-literal
+   pairs; a tie of two literals of one datatype under < is Literal.eq - are computed by the harness (trusted Python);
+   what the checker contributes is only that none of them may be false *)
+Theorem C07_spec_ok_flags_reads : forall c o, spec_ok c o = true -> ~ In (Some false) (o_flags o).
+Proof. exact spec_ok_flags_reads. Qed.
+Print Assumptions C07_spec_ok_flags_reads.
+
 (* the code as it was before the "fix:" commits did not have these properties (findings F7a, F7b, F7e) *)
 Theorem C07_prefix_pickle_refuted :
   mk_literal [] true [48; 49] None (Some xsd_integer) = WTerm (Lit [49] (Some xsd_integer) None).
@@ -280,6 +288,13 @@ Theorem C07_prefix_bs_quote_refuted :
   /\ decode_prefix [10; 92; 92; 34] = Some [10; 34].
 Proof. exact prefix_bs_quote_refuted. Qed.
 Print Assumptions C07_prefix_bs_quote_refuted.
+
+(* the integer-valued numeric datatypes inside the fragment, over the table reflected from _NUMERIC_LITERAL_TYPES and the
+   well-formedness checkers: nine of the thirteen (the four xsd:unsigned* IRIs sort after xsd:string) *)
+Example C07_fragment_int_types :
+  length frag_int_types = 9%nat /\ length int_value_types = 13%nat
+  /\ int_type_get xsd_integer frag_int_types = Some (None, None).
+Proof. vm_compute. repeat split; reflexivity. Qed.
 
 (* non-vacuity: a case with all four kinds, a tag differing in case and an integer literal passes the
    checker, and a text case with LF, backslash-quote, CR, an astral character and backslash-x round-trips *)
